@@ -272,6 +272,11 @@ type Step struct {
 	// it receives, in particular on the active probes of its health endpoint, and the step lasts at least
 	// probeHoldMs (longer than the active-check interval): a probe failure is part of the step.
 	HealthToo bool `json:"health_endpoint_too,omitempty"`
+	// Download (client-abort-download only): request k of the burst plays download variant (Download+k) mod 7 -
+	// size and compressibility of the download, trickled or at once, framing, the client's Accept-Encoding, how
+	// much it has read when it disconnects (see downloads in afterwards.go). 0 = the burst starts with the only
+	// variant that existed before the dimension.
+	Download int `json:"download_variant_rotation,omitempty"`
 }
 
 // requests is the number of requests of the step that carry the fault (Good and a GoodBurst's requests
@@ -313,6 +318,9 @@ func (s Step) String() string {
 	if s.HealthToo {
 		d += fmt.Sprintf(" (also on the health endpoint, held %d ms)", probeHoldMs)
 	}
+	if s.Fault == "client-abort-download" {
+		d += fmt.Sprintf(" (download variants from #%d: %s)", s.Download, downloadOf(s, 0).name)
+	}
 	return d
 }
 
@@ -341,6 +349,10 @@ type Case struct {
 	// can then only be satisfied through the backend that misbehaved. Then GOOD comes back and the ordinary
 	// recovery probes follow.
 	Swap bool `json:"recovery_through_recovered_backend,omitempty"`
+	// ProbeRotation: the shape (request kind, Accept-Encoding, the healthy backends' answer) of recovery probe
+	// number n of the case is probeShapes[(ProbeRotation+n) mod 12] (afterwards.go). 0 = the rotation starts with
+	// the only shape that existed before the dimension (plain GET, no Accept-Encoding, 15-byte answer).
+	ProbeRotation int `json:"recovery_probe_rotation,omitempty"`
 }
 
 func (c Case) String() string {
@@ -473,6 +485,9 @@ func genStep(rt *rapid.T, active bool) Step {
 	if active && probeFault(s.Fault) {
 		s.HealthToo = rapid.IntRange(0, 2).Draw(rt, "health_endpoint_too") == 0
 	}
+	if s.Fault == "client-abort-download" {
+		s.Download = rapid.IntRange(0, len(downloads)-1).Draw(rt, "download_variant")
+	}
 	return s
 }
 
@@ -518,6 +533,7 @@ func genCase(k int) *rapid.Generator[Case] {
 			}
 		}
 		c.Swap = rapid.Bool().Draw(rt, "swap_roles_for_recovery")
+		c.ProbeRotation = rapid.IntRange(0, len(probeShapes)-1).Draw(rt, "recovery_probe_rotation")
 		if c.Swap && c.Cfg.Strategy == "least_connections" {
 			// an idle least_connections pool always picks the backend listed first: listed second, the recovered
 			// backend would legitimately never be asked while the refusing one is not ejected
@@ -543,6 +559,7 @@ func genExpiry() *rapid.Generator[Case] {
 		case "free":
 			c.FreeRunning = c.Clients
 		}
+		c.ProbeRotation = rapid.IntRange(0, len(probeShapes)-1).Draw(rt, "recovery_probe_rotation")
 		return c
 	})
 }
@@ -572,6 +589,7 @@ func genFlaky() *rapid.Generator[Case] {
 			c.Cfg.PassiveTimeoutOmitted = rapid.Bool().Draw(rt, "timeout_omitted")
 		}
 		c.FreeRunning = []int{0, 0, c.Clients / 4, c.Clients / 2}[rapid.IntRange(0, 3).Draw(rt, "mode")]
+		c.ProbeRotation = rapid.IntRange(0, len(probeShapes)-1).Draw(rt, "recovery_probe_rotation")
 		return c
 	})
 }
